@@ -307,6 +307,86 @@ theorem firstFailure_of_mem (vs : List Validator) (y : Val) (v : Validator) (e :
       · subst h; rw [he] at hw; cases hw
       · exact ih h
 
+theorem getKV_merge_not_key {α} (a b : List (String × α)) (k : String) (h : hasKey b k = false) :
+    getKV (merge a b) k = getKV a k := by
+  unfold merge
+  induction b generalizing a with
+  | nil => rfl
+  | cons p t ih =>
+    obtain ⟨k', v'⟩ := p
+    simp only [hasKey, List.any_cons, Bool.or_eq_false_iff, beq_eq_false_iff_ne, ne_eq] at h
+    simp only [List.foldl_cons]
+    rw [ih _ (by simpa [hasKey] using h.2)]
+    exact getKV_setKV_ne _ _ _ _ (fun e => h.1 e.symm)
+
+theorem checkAll_error_of_mem (rs : List Rule) (f : List (String × Val)) (r : Rule) (x : String)
+    (hm : r ∈ rs) (hc : checkRule r f = .error x) : ∃ y, checkAll rs f = .error y := by
+  induction rs with
+  | nil => cases hm
+  | cons r' t ih =>
+    simp only [checkAll]
+    cases h' : checkRule r' f with
+    | error y => exact ⟨y, rfl⟩
+    | ok u =>
+      rcases List.mem_cons.mp hm with h | h
+      · subst h; rw [hc] at h'; cases h'
+      · exact ih h
+
+theorem derive_pure_error_of_mem (rs : List Rule) (hp : rs.all Rule.isPure = true) (f : List (String × Val)) (e : String → Option Built)
+    (r : Rule) (x : String) (hm : r ∈ rs) (hc : checkRule r f = .error x) : ∃ y, derive rs ⟨f, e⟩ = .error y := by
+  obtain ⟨y, hy⟩ := checkAll_error_of_mem rs f r x hm hc
+  exact ⟨y, by rw [derive_pure rs hp, hy]⟩
+
+theorem derive_append (a b : List Rule) (i : Inst) :
+    derive (a ++ b) i = (match derive a i with | .error x => .error x | .ok j => derive b j) := by
+  induction a generalizing i with
+  | nil => rfl
+  | cons r t ih =>
+    simp only [List.cons_append, derive]
+    cases deriveStep r i with
+    | error x => rfl
+    | ok j => exact ih j
+
+theorem runOps_fields (rs : List Rule) (hp : rs.all Rule.isPure = true) (ops : List Op) (f : List (String × Val)) (e : String → Option Built)
+    (j : Inst) (h : runOps rs ⟨f, e⟩ ops = .ok j) : j.fields = fieldsAfter f ops := by
+  induction ops generalizing f e with
+  | nil => simp only [runOps, Except.ok.injEq] at h; rw [← h]; rfl
+  | cons o os ih =>
+    cases o with
+    | assign k v =>
+      simp only [runOps, stepOp, assign] at h
+      exact ih _ _ h
+    | apply =>
+      simp only [runOps, stepOp] at h
+      cases hd : derive rs ⟨f, e⟩ with
+      | error x => rw [hd] at h; cases h
+      | ok i1 =>
+        rw [hd] at h
+        obtain ⟨hf, _⟩ := derive_fields rs f e (settled_of_pure rs hp f) i1 hd
+        obtain ⟨f1, e1⟩ := i1
+        simp only [] at hf
+        subst hf
+        exact ih _ _ h
+
+theorem validateAll_error_of_mem (fs : List Field) (args : List (String × Val)) (f : Field) (x : Val) (e : String)
+    (hm : f ∈ fs) (hx : getKV args f.name = some x) (he : checkField f x = .error e) : ∃ e', validateAll fs args = .error e' := by
+  induction fs with
+  | nil => cases hm
+  | cons g t ih =>
+    simp only [validateAll]
+    cases hg : getKV args g.name with
+    | none => exact ⟨_, rfl⟩
+    | some y =>
+      simp only []
+      cases hc : checkField g y with
+      | error e2 => exact ⟨e2, rfl⟩
+      | ok z =>
+        simp only []
+        rcases List.mem_cons.mp hm with h | h
+        · subst h; rw [hx] at hg; cases hg; rw [he] at hc; cases hc
+        · obtain ⟨e', h'⟩ := ih h
+          rw [h']; exact ⟨e', rfl⟩
+
 end Lemmas.Config
 
 deriving instance DecidableEq for Except
